@@ -42,7 +42,8 @@ FILTERS = [(0x6001, 1, 1, 5), (0x6001, 0xFFFF, 1, 5), (0x6001, 2, 0xFF, 0xFFFFFF
            (0x6001, 0xFFFF, 0xFF, 5), (0x6002, 1, 0xFF, 0), (0x6001, 2, 0xFF, 6), (0x6003, 0xFFFF, 3, 8)]
 SERVICES = [(0x6001, 1, 1, 5), (0x6001, 2, 1, 5), (0x6001, 2, 2, 6), (0x6001, 3, 1, 4), (0x6002, 1, 1, 0), (0x6002, 1, 2, 0),
             (0x6003, 7, 3, 9), (0x6003, 7, 3, 8)]
-SOURCES = [("10.0.9.1", 30490), ("10.0.9.2", 30490)]
+# the third one is what a socket reports for a link-local IPv6 sender: the zone is part of the host string
+SOURCES = [("10.0.9.1", 30490), ("10.0.9.2", 30490), ("fe80::93%lo", 30490, 0, 1)]
 
 
 def fmatch(f, s):
@@ -90,7 +91,7 @@ def build(rng):
     events.sort(key=lambda e: (e[0], e[1]))
     for e in events:
         fl, sid = sess[e[2]].next()
-        e.append(net.sd_bytes([net.offer(e[3][0], e[3][1], e[3][2], e[3][3], e[4], o1=[refwire.ep4(SOURCES[e[2]][0], 3000)] if e[4] else [])],
+        e.append(net.sd_bytes([net.offer(e[3][0], e[3][1], e[3][2], e[3][3], e[4], o1=[refwire.ep4(SOURCES[e[2]][0], 3000) if ":" not in SOURCES[e[2]][0] else refwire.ep6("fe80::93", 3000)] if e[4] else [])],
                               sid, reboot=fl))
     # stop + start of the discovery client ("after start" holds for every start): 0-2 restarts, the new start in the same
     # loop iteration as the stop, one or two iterations later at the same instant, or after a pause
